@@ -60,6 +60,11 @@ def lifecycle_histories(rng, tier):
                 abi = rng.choice("pu")
                 # a directory descriptor that has been listed owns a directory stream as well as a native descriptor
                 pre = [{"call": "readdir", "abi": rng.choice("pu"), "fd": x, "buflen": 256, "cookie": 0}] if x in (5, 3) and rng.random() < 0.6 else []
+                # whatever an implementation remembers about a live descriptor (its listing, its prestat, its position) must not
+                # outlive the close
+                for extra in ("prestat", "prestatname", "fdstat", "filestat", "tell"):
+                    if rng.random() < 0.3:
+                        pre.append(use(extra, x, rng.choice("pu")))
                 calls = list(opens) + pre + [{"call": "close", "abi": abi, "fd": x}, use(k1, x, rng.choice("pu"))]
                 calls.append({"call": "close", "abi": abi, "fd": x} if k3 == "close" else use(k3, x, rng.choice("pu")))
                 # descriptors opened afterwards must not alias anything live
@@ -80,6 +85,23 @@ def lifecycle_histories(rng, tier):
             calls = list(opens) + [use(k1, x, rng.choice("pu")), {"call": "open", "abi": "p", "dirfd": 3, "path": "a", "abs": False, "oflags": 0, "rd": True, "wr": False, "app": False}]
             hs.append({"id": "s%d" % n, "setup": setup, "calls": calls})
             n += 1
+    # many descriptors in one process (the table grows), closes in between, then every number is probed
+    for j in range(3 if tier == "quick" else 12):
+        calls, live = [], []
+        nxt = 4
+        for k in range(rng.choice([13, 18, 34])):
+            if rng.random() < 0.5:
+                calls.append({"call": "open", "abi": rng.choice("pu"), "dirfd": 3, "path": "a", "abs": False, "oflags": 0, "rd": True, "wr": rng.random() < 0.5, "app": False})
+            else:
+                calls.append({"call": "open", "abi": rng.choice("pu"), "dirfd": 3, "path": "d", "abs": False, "oflags": 2, "rd": True, "wr": False, "app": False})
+            live.append(nxt)
+            nxt += 1
+            if live and rng.random() < 0.45:
+                calls.append({"call": "close", "abi": rng.choice("pu"), "fd": live.pop(rng.randrange(len(live)))})
+        for fd in range(3, nxt + 2):
+            calls.append({"call": rng.choice(["tell", "fdstat", "filestat"]), "abi": rng.choice("pu"), "fd": fd})
+        hs.append({"id": "m%d" % n, "setup": setup, "calls": calls})
+        n += 1
     # live descriptors: the pre-open reports its path (any buffer length: no terminator, nothing beyond the length), file type
     # and flags of every kind of descriptor, sync of descriptors with and without a native descriptor
     for app in (False, True):
